@@ -198,7 +198,9 @@ def proof_step(prop, thorough=False):
     """returns dict(ok, obligations, discharged, failures, axioms, checker_cmd)"""
     module = f"AdfObdd.Props.{prop}"
     res = {"ok": False, "obligations": 0, "discharged": 0, "failures": [], "axioms": {}, "module": module,
-           "checker_cmd": f"cd /verif/lean && lake build {module} driver && lake env lean <audit file with #print axioms for every theorem of {module}>"}
+           "checker_cmd": f"cd /verif/lean && lake build {module} driver && lake env lean /verif/build/audit/{prop}.lean   "
+                          f"(the audit file is generated by the check: `import {module}` + `#print axioms <T>` for every theorem T of Props/{prop}.lean; "
+                          f"plus a scan of all Lean sources for sorry/admit/axiom/native_decide/bv_decide/implemented_by/unsafe/extern/maxHeartbeats 0)"}
     thms = prop_theorems(prop)
     res["obligations"] = len(thms)
     if not thms:
